@@ -681,6 +681,27 @@ def install(eng):
         from .kinds import _leaf
         return one(st, _leaf(z3.IntSort(), 'val_' + args[0], (args[1],)))
 
+    @reg('map_rec')
+    def _map_rec(eng, st, args, kw, node):
+        """map_rec(name, key): the value (of the map's declared kind) the abstract map `name` of the contract under
+        verification holds at `key` (same terms as subscripting the map in code)."""
+        from .contract import AbsMap
+        from .kinds import KRec as _KRec
+        c = eng.frames[0].contract if eng.frames else None
+        found = []
+        def walk(x, depth=0):
+            if isinstance(x, AbsMap) and x.name == args[0]:
+                found.append(x)
+            elif isinstance(x, _KRec) and depth < 4:
+                for y in x.fields.values():
+                    walk(y, depth + 1)
+        if c is not None:
+            for x in list(getattr(c, 'globals_', {}).values()) + list(getattr(c, 'params', {}).values()):
+                walk(x)
+        if not found:
+            raise Unsupported('map_rec: no abstract map named %r in the contract under verification' % (args[0],))
+        return one(st, eng.absmap_get(found[0], args[1]))
+
     @reg('map_field')
     def _map_field(eng, st, args, kw, node):
         from .kinds import _leaf
